@@ -397,6 +397,9 @@ func aliasDeclaredFields(name string, async bool) *spec.Spec {
 	client := b.ptr(b.strct("Client", ""))
 	p1 := b.fn("LoadSettings", "", nil, []int{pst}, async, true)
 	e := b.expand(pst)
+	// the expansion names the struct through an alias of the pointer type
+	b.s.ExtraDecl += "type SettingsRef = *Settings\n"
+	b.s.Provs[e].TypeAlias = "SettingsRef"
 	p2 := b.fn("NewClient", "", []int{host, retries, lookup}, []int{client}, async, false)
 	b.inject("InitializeClient", client, p1, e, p2)
 	b.s.Features = append(b.s.Features, "expanded-struct-with-alias-declared-fields")
